@@ -92,6 +92,8 @@ def label_prefixes(tier):
 
 def listings(tier):
     K = 3 if tier == "quick" else 4
+    # one long listing (6 000 / 40 000 lines, several hundred kilobytes): every line counts, however far down the file it stands
+    yield dict(listing=[k % len(LINES) for k in range(6000 if tier == "quick" else 40000)])
     for k in range(1, K + 1):
         for combo in itertools.product(range(len(LINES)), repeat=k):
             yield dict(listing=list(combo))
